@@ -11,6 +11,7 @@ Lemma gen_corrupt_model : forall rnd m,
   ok_opt (gen_corrupt_response_signature rnd m) = ok_opt (corrupt_response_signature rnd m).
 Proof.
   intros rnd m. unfold gen_corrupt_response_signature, corrupt_response_signature, get_unwrap. cbv zeta.
+  cbn [fold_res].   (* the copied fields written as a loop over a literal list of tags: unrolled *)
   destruct (get_field m SIG) as [sg|]; [|reflexivity].
   destruct (get_field m PATH) as [p|]; [|chain].
   destruct (get_field m SREP) as [s|]; [|chain].
